@@ -25,6 +25,7 @@ type DeclResult struct {
 	Decl     string   `json:"decl"`
 	DeclSexp string   `json:"decl_sexp"`
 	SpecSexp string   `json:"spec_sexp,omitempty"` // set when a nested-struct field carries markers: the declaration with those markers pushed down to the direct leaf fields
+	CanonSexp string  `json:"canon_sexp,omitempty"` // set when a marker parameter is spelled unusually: the declaration with plain decimal parameters (asked of the Spec; the models only read decimal)
 	History  string   `json:"history,omitempty"`   // earlier version of the source that was generated in the same directory first
 	GenExit  int      `json:"gen_exit"`
 	GenErr   string   `json:"gen_err,omitempty"`
@@ -605,6 +606,11 @@ func (r *runner) generate(sc *Scenario) []*DeclResult {
 	dir := filepath.Join(r.mod(), pkg)
 	_ = os.MkdirAll(dir, 0o755)
 	src := sc.Source(pkg)
+	for rel, content := range sc.Deps {
+		fp := filepath.Join(dir, rel)
+		_ = os.MkdirAll(filepath.Dir(fp), 0o755)
+		_ = os.WriteFile(fp, []byte(content), 0o644)
+	}
 	history := ""
 	if sc.Pre != nil {
 		// history: an earlier, larger version of the package is generated first; the files it leaves behind are
@@ -615,11 +621,25 @@ func (r *runner) generate(sc *Scenario) []*DeclResult {
 			history += "\n// (generating the earlier version failed: " + tail(o, 300) + ")"
 		}
 	}
-	_ = os.WriteFile(filepath.Join(dir, "x.go"), []byte(src), 0o644)
+	files := sc.Files(pkg)
+	if len(files) > 1 || sc.Layout != "" {
+		src = ""
+		for _, n := range []string{"x.go", "y.go"} {
+			if c, ok := files[n]; ok {
+				src += "// ---- " + n + " ----\n" + c
+			}
+		}
+	}
+	for n, c := range files {
+		_ = os.WriteFile(filepath.Join(dir, n), []byte(c), 0o644)
+	}
 	out, code := r.cmd(r.mod(), r.govalid, "./"+pkg)
 	var res []*DeclResult
 	for _, d := range sc.Decls {
 		dr := &DeclResult{Scenario: sc.ID, Decl: d.Name, DeclSexp: d.Sexp(), GenExit: code, Source: src, History: history}
+		if cd, any := canonDecl(d); any {
+			dr.CanonSexp = cd.Sexp()
+		}
 		if hasMarkedNest(d.Fields) {
 			pd := *d
 			pd.Fields = pushdown(d.Fields, nil)
@@ -630,6 +650,12 @@ func (r *runner) generate(sc *Scenario) []*DeclResult {
 		}
 		fn := "x_" + lowerFirst(d.Name) + "_validator.go"
 		p := filepath.Join(dir, fn)
+		if _, err := os.Stat(p); err != nil {
+			if _, err2 := os.Stat(filepath.Join(dir, "y_"+lowerFirst(d.Name)+"_validator.go")); err2 == nil {
+				fn = "y_" + lowerFirst(d.Name) + "_validator.go"
+				p = filepath.Join(dir, fn)
+			}
+		}
 		if _, err := os.Stat(p); err == nil {
 			dr.File = fn
 			dumpGenerated(p, d.Name, dr)
@@ -658,8 +684,15 @@ func (r *runner) writeDriver(sc *Scenario, results []*DeclResult, mode string) {
 	pkg := "p" + sc.ID
 	has := func(m string) bool { return strings.Contains(","+mode+",", ","+m+",") }
 	var sb strings.Builder
-	sb.WriteString("package " + pkg + "\n\nimport (\n\t\"context\"\n\t\"errors\"\n\t\"fmt\"\n\t\"io\"\n\t\"math\"\n\t\"strconv\"\n\t\"strings\"\n\t\"testing\"\n\n\t\"github.com/sivchari/govalid\"\n\n\t\"scen/rt\"\n)\n\n")
+	extraImports := ""
+	for _, im := range sc.Imports {
+		extraImports += "\t" + strings.ReplaceAll(im, "§PKG§", pkg) + "\n"
+	}
+	sb.WriteString("package " + pkg + "\n\nimport (\n\t\"context\"\n\t\"errors\"\n\t\"fmt\"\n\t\"io\"\n\t\"math\"\n\t\"strconv\"\n\t\"strings\"\n\t\"testing\"\n\n\t\"github.com/sivchari/govalid\"\n\n\t\"scen/rt\"\n" + extraImports + ")\n\n")
 	sb.WriteString("var _ govalid.Validator\n")
+	for i, u := range sc.Uses {
+		sb.WriteString(strings.Replace(u, "var _ ", fmt.Sprintf("var _drvuse%d ", i), 1) + "\n")
+	}
 	sb.WriteString("var _ = math.Pi\nvar _ = strconv.Itoa\nvar _ = errors.New\nvar _ = context.Background\nvar _ = strings.Join\nvar _ sync.Mutex\nvar _ = testing.AllocsPerRun\nvar _ = fmt.Sprint\nvar _ = rt.Repr\n\n")
 	if has("iface") {
 		sb.WriteString("// interface assertions (C08)\nvar (\n")
